@@ -763,4 +763,170 @@ theorem matchStr_spec (b : Buf) (s : JStr) (i : Nat) (key t : List UInt8) (hk : 
   have := matchStrF_spec b s (b.size - i + 1) i true [] key t (by simpa using hk) h hwf (by omega)
   simpa [matchStr] using this
 
+
+/-! ### `SCAN` and `json_find` -/
+
+theorem scan_hit (b : Buf) (i : Nat) (w : List UInt8) (ch : UInt8) (t : List UInt8) (h : Rest b i (w ++ ch :: t))
+    (hw : WsWF w) (hch : isWsCh ch = false) : scan b i ch = .ok (some (i + w.length + 1)) := by
+  simp only [scan]
+  rw [skipWs_spec b w i _ h hw (noWsHead_cons hch), Res.ok_bind]
+  have h' := h.append
+  simp [h'.ne_end, h'.cons.2.1]
+
+theorem scan_miss (b : Buf) (i : Nat) (w : List UInt8) (c ch : UInt8) (t : List UInt8) (h : Rest b i (w ++ c :: t))
+    (hw : WsWF w) (hc : isWsCh c = false) (hne : c ≠ ch) : scan b i ch = .ok none := by
+  simp only [scan]
+  rw [skipWs_spec b w i _ h hw (noWsHead_cons hc), Res.ok_bind]
+  have h' := h.append
+  simp [h'.ne_end, h'.cons.2.1, hne]
+
+def membersCount : JMembers → Nat
+  | .one .. => 1
+  | .more _ _ _ _ _ _ rest => membersCount rest + 1
+
+theorem membersCount_le : ∀ ms : JMembers, membersCount ms ≤ ms.ser.length
+  | .one wb k wk wv v wa => by simp [membersCount, JMembers.ser, JStr.ser]; omega
+  | .more wb k wk wv v wa rest => by
+    have := membersCount_le rest
+    simp [membersCount, JMembers.ser, JStr.ser]; omega
+
+/-- the answer of the loop of `json_find` started at the beginning of a member list -/
+def findAnswer (b : Buf) (key : List UInt8) (ms : JMembers) (i : Nat) : Nat :=
+  match findMember key ms.erase with
+  | some m => (match ms.valuePos m with | some p => i + p | none => b.size)
+  | none => b.size
+
+/-- one round of the loop up to the value: `"` name `"` ws `:` ws -/
+theorem find_member_head (b : Buf) (key : List UInt8) (hk : ∀ c ∈ key, c ≠ 0) (f i : Nat) (wb : Ws) (k : JStr)
+    (wk wv t : List UInt8) (h : Rest b i (wb ++ (k.ser ++ (wk ++ 0x3a :: (wv ++ t))))) (hwb : WsWF wb) (hkw : k.WF)
+    (hwk : WsWF wk) (hwv : WsWF wv) (ht : NoWsHead t) :
+    findLoopF b (cstr key) (f + 1) i =
+      (let j4 := i + (wb.length + k.ser.length + wk.length + 1 + wv.length)
+       if decide (JStr.decode k = some key) then Res.ok j4 else
+         skipValue b j4 >>= fun j5 =>
+         scan b j5 0x2c >>= fun r6 =>
+         match r6 with
+         | none => .ok b.size
+         | some j6 => findLoopF b (cstr key) f j6) := by
+  have h0 : Rest b i (wb ++ 0x22 :: (serItems k ++ 0x22 :: (wk ++ 0x3a :: (wv ++ t)))) := by
+    simpa [JStr.ser] using h
+  simp only [findLoopF]
+  rw [scan_hit b i wb 0x22 _ h0 hwb (by decide), Res.ok_bind]
+  simp only []
+  have h1 := h0.append.cons.2.2
+  rw [matchStr_spec b k _ key _ hk h1 hkw, Res.ok_bind]
+  simp only []
+  have h2 : Rest b (i + wb.length + 1 + (serItems k).length + 1) (wk ++ 0x3a :: (wv ++ t)) := by
+    have := h1.append.cons.2.2
+    simpa [Nat.add_assoc] using this
+  rw [scan_hit b _ wk 0x3a _ h2 hwk (by decide), Res.ok_bind]
+  simp only []
+  have h3 := h2.append.cons.2.2
+  rw [skipWs_spec b wv _ _ h3 hwv ht, Res.ok_bind]
+  have e : i + wb.length + 1 + (serItems k).length + 1 + wk.length + 1 + wv.length =
+      i + (wb.length + k.ser.length + wk.length + 1 + wv.length) := by
+    simp [JStr.ser]; omega
+  rw [e]
+  cases decide (JStr.decode k = some key) <;> first | rfl | simp
+
+theorem find_members (b : Buf) (key : List UInt8) (hk : ∀ c ∈ key, c ≠ 0) :
+    ∀ (ms : JMembers) (f i : Nat) (t : List UInt8), ms.WF → Rest b i (ms.ser ++ 0x7d :: t) → membersCount ms < f →
+      findLoopF b (cstr key) f i = .ok (findAnswer b key ms i)
+  | .one wb k wk wv v wa, f, i, t, hwf, hr, hf => by
+    obtain ⟨f', rfl⟩ : ∃ f', f = f' + 1 := ⟨f - 1, by omega⟩
+    obtain ⟨hwb, hkw, hwk, hwv, hv, hwa⟩ := hwf
+    have hr' : Rest b i (wb ++ (k.ser ++ (wk ++ 0x3a :: (wv ++ (v.ser ++ (wa ++ 0x7d :: t)))))) := by
+      simpa [JMembers.ser] using hr
+    rw [find_member_head b key hk f' i wb k wk wv _ hr' hwb hkw hwk hwv (noWsHead_ser v hv _)]
+    simp only []
+    by_cases hd : JStr.decode k = some key
+    · simp [hd, findAnswer, JMembers.erase, findMember, JMembers.valuePos]
+    · have h4 : Rest b (i + (wb.length + k.ser.length + wk.length + 1 + wv.length)) (v.ser ++ (wa ++ 0x7d :: t)) := by
+        have := hr'.append.append.append.cons.2.2.append
+        simpa [Nat.add_assoc] using this
+      rw [skipValue_spec b v _ _ hv h4 (follow_ws_cons v hwa not_num_7d)]
+      simp only [hd, decide_false, Bool.false_eq_true, if_false, Res.ok_bind]
+      rw [scan_miss b _ wa 0x7d 0x2c t h4.append hwa (by decide) (by decide), Res.ok_bind]
+      simp [findAnswer, JMembers.erase, findMember, hd]
+  | .more wb k wk wv v wa rest, f, i, t, hwf, hr, hf => by
+    obtain ⟨f', rfl⟩ : ∃ f', f = f' + 1 := ⟨f - 1, by omega⟩
+    obtain ⟨hwb, hkw, hwk, hwv, hv, hwa, hrest⟩ := hwf
+    have hr' : Rest b i (wb ++ (k.ser ++ (wk ++ 0x3a :: (wv ++ (v.ser ++ (wa ++ 0x2c :: (rest.ser ++ 0x7d :: t))))))) := by
+      simpa [JMembers.ser] using hr
+    rw [find_member_head b key hk f' i wb k wk wv _ hr' hwb hkw hwk hwv (noWsHead_ser v hv _)]
+    simp only []
+    by_cases hd : JStr.decode k = some key
+    · simp [hd, findAnswer, JMembers.erase, findMember, JMembers.valuePos]
+    · have h4 : Rest b (i + (wb.length + k.ser.length + wk.length + 1 + wv.length))
+          (v.ser ++ (wa ++ 0x2c :: (rest.ser ++ 0x7d :: t))) := by
+        have := hr'.append.append.append.cons.2.2.append
+        simpa [Nat.add_assoc] using this
+      rw [skipValue_spec b v _ _ hv h4 (follow_ws_cons v hwa not_num_2c)]
+      simp only [hd, decide_false, Bool.false_eq_true, if_false, Res.ok_bind]
+      rw [scan_hit b _ wa 0x2c _ h4.append hwa (by decide), Res.ok_bind]
+      simp only []
+      rw [find_members b key hk rest f' _ t hrest h4.append.append.cons.2.2 (by simp [membersCount] at hf; omega)]
+      simp only [findAnswer, JMembers.erase, findMember, hd, if_false]
+      cases hm : findMember key rest.erase with
+      | none => simp
+      | some m =>
+        simp only [Option.map_some, JMembers.valuePos]
+        cases hp : rest.valuePos m with
+        | none => simp
+        | some p => simp; omega
+
+/-- C17, JSON: on `lead ++ text of d ++ trail` (any value `d` with any layout, any whitespace `lead`, anything
+    after it) `json_find` returns exactly `Spec.JVal.expectedFind`. -/
+theorem jsonFind_spec (lead : Ws) (d : JDoc) (trail key : List UInt8) (hl : WsWF lead) (hd : d.WF)
+    (hk : ∀ c ∈ key, c ≠ 0) :
+    jsonFind (lead ++ d.ser ++ trail).toArray (cstr key) = .ok (expectedFind lead d trail key) := by
+  let b : Buf := (lead ++ d.ser ++ trail).toArray
+  have hr : Rest b 0 (lead ++ (d.ser ++ trail)) := ⟨Nat.zero_le _, by simp [b]⟩
+  have hsz : b.size = lead.length + d.ser.length + trail.length := by simp [b]; omega
+  show jsonFind b (cstr key) = _
+  obtain ⟨c, r, hc, hws, _, _⟩ := ser_head d hd
+  simp only [jsonFind]
+  by_cases hobj : c = 0x7b
+  · -- an object (only objects start with '{')
+    subst hobj
+    cases d with
+    | obj0 w =>
+      have hr' : Rest b 0 (lead ++ 0x7b :: (w ++ 0x7d :: trail)) := by simpa [JDoc.ser] using hr
+      rw [scan_hit b 0 lead 0x7b _ hr' hl (by decide), Res.ok_bind]
+      simp only []
+      have h1 := hr'.append.cons.2.2
+      obtain ⟨f', hf'⟩ : ∃ f', b.size + 1 = f' + 1 := ⟨b.size, rfl⟩
+      rw [hf']
+      simp only [findLoopF]
+      rw [scan_miss b _ w 0x7d 0x22 trail h1 hd (by decide) (by decide), Res.ok_bind]
+      simp [expectedFind, JDoc.erase, find, findMember, hsz]
+    | obj ms =>
+      have hr' : Rest b 0 (lead ++ 0x7b :: (ms.ser ++ 0x7d :: trail)) := by simpa [JDoc.ser] using hr
+      rw [scan_hit b 0 lead 0x7b _ hr' hl (by decide), Res.ok_bind]
+      simp only []
+      have h1 := hr'.append.cons.2.2
+      have hcnt := membersCount_le ms
+      rw [find_members b key hk ms _ _ trail hd h1 (by simp [JDoc.ser] at hsz; omega)]
+      simp only [findAnswer, expectedFind, JDoc.erase, find]
+      cases findMember key ms.erase with
+      | none => simp [hsz]
+      | some m =>
+        cases hp : ms.valuePos m with
+        | none => simp only [hp]; simp [hsz]
+        | some p => simp only [hp]; simp <;> omega
+    | null => simp [JDoc.ser, Spec.JVal.litNull] at hc
+    | bool v => cases v <;> simp [JDoc.ser, Spec.JVal.litTrue, Spec.JVal.litFalse] at hc
+    | num tok => simp only [JDoc.ser] at hc; subst hc; exact absurd (hd.2 0x7b (by simp)) (by decide)
+    | str s => simp [JDoc.ser, JStr.ser] at hc
+    | arr0 w => simp [JDoc.ser] at hc
+    | arr es => simp [JDoc.ser] at hc
+  · have hr' : Rest b 0 (lead ++ c :: (r ++ trail)) := by simpa [hc] using hr
+    rw [scan_miss b 0 lead c 0x7b _ hr' hl hws hobj, Res.ok_bind]
+    have : expectedFind lead d trail key = b.size := by
+      cases d with
+      | obj0 w => simp [JDoc.ser] at hc; exact absurd hc.1.symm hobj
+      | obj ms => simp [JDoc.ser] at hc; exact absurd hc.1.symm hobj
+      | _ => simp [expectedFind, hsz]
+    simp [this]
+
 end Percival.Proofs.JsonSpec
